@@ -269,6 +269,9 @@ def run(ctx: Ctx) -> None:
     immutability(ctx)
     ctx.evaluations += ctx.replayed
     ctx.exhaustive = not quick
+    # code -> spec: the calls of the repository's own test-suite with their variations, judged by spec/Trace_Harvest.tla
+    from .. import harvest
+    harvest.check(ctx, "C11")
 
 
 def replay(path: str) -> int:
